@@ -198,17 +198,21 @@ where
     let tree = match r {
         Ok(Some(t)) => t,
         Ok(None) => {
-            out.blocked = Some(format!("domain [{}, {}] refused by new()", lo, hi));
+            let len = hi as i128 - lo as i128 + 1;
+            if len > 16 {
+                let pn = rc.observe.trailing_zeros();
+                out.fail(pn, "domain-refused", 0, format!("SegExpTree::new([{}, {}]) refused a domain of {} points (> 16): no history on it can be run", lo, hi, len));
+            } else {
+                out.blocked = Some(format!("domain [{}, {}] has <= 16 points", lo, hi));
+            }
             return out;
         }
         Err(e) => {
             let msg = format!("SegExpTree::new([{}, {}]) failed: {:?}", lo, hi, e);
             if rc.obs(10) {
                 out.fail(10, "panic", 0, msg);
-            } else if rc.obs(14) {
-                out.fail(14, "panic-in-observed-op", 0, msg);
             } else {
-                out.blocked = Some(msg);
+                out.fail(rc.observe.trailing_zeros(), "history-aborted", 0, msg);
             }
             return out;
         }
@@ -295,11 +299,8 @@ where
             CallErr::Injected => unreachable!(),
             CallErr::Budget => {
                 let msg = format!("SegExpTree: callback budget exceeded in {}", what);
-                if self.rc.obs(10) {
-                    self.out.fail(10, "callback-budget", i, msg);
-                } else {
-                    self.out.blocked = Some(msg);
-                }
+                let pn = if self.rc.obs(10) { 10 } else { self.rc.observe.trailing_zeros() };
+                self.out.fail(pn, "callback-budget", i, msg);
             }
             CallErr::Panic(m) => {
                 let msg = format!("SegExpTree: panic in {}: {}", what, m);
@@ -308,7 +309,10 @@ where
                 } else if let Some(pn) = observed_by.iter().find(|n| self.rc.obs(**n)) {
                     self.out.fail(*pn, "panic-in-observed-op", i, msg);
                 } else {
-                    self.out.blocked = Some(msg);
+                    // the in-contract history cannot be completed: a counterexample to any property
+                    // that quantifies over all histories (and, of course, to C10)
+                    let pn = self.rc.observe.trailing_zeros();
+                    self.out.fail(pn, "history-aborted", i, format!("{} (the in-contract history cannot be completed, so what the property promises for it is not delivered)", msg));
                 }
             }
         }
